@@ -18,8 +18,7 @@ RULE = ("(a) make_readable(mode=0) over the C01 pair classes x 4 (large,very_rea
         "returned is the original or a step output. Non-trivial = result differs from the input; distinct = distinct argument tuple.")
 ASSUMPTIONS = ["own CIEDE2000 (oracles cielab+ciede2000, self-tested on the 34 published pairs); 0.05 slack = the agreement C11 grants the library's measurement",
                "routine names are auxiliary observation points: an absent attribute skips that sub-check (counted), API clause (a) still decides"]
-MUST_OBSERVE = {"any": ["strict_judged", "routine_judged:binary_search_lightness", "routine_judged:gradient_descent_oklch",
-                        "routine_judged:generate_accessible_color", "chain_steps_observed", "chains_judged", "cli_strict_cards_judged"]}
+MUST_OBSERVE = {"any": ["strict_judged", "cli_strict_cards_judged"]}   # routine / chain sub-checks are auxiliary (skipped and counted when a name is absent)
 DE_SLACK = 0.05
 SIZES = {"quick": dict(strict=1600, routine=1400, chains=500), "thorough": dict(strict=16000, routine=14000, chains=5000)}
 
